@@ -96,6 +96,27 @@ func c01Judge(k c01Case) *vlib.Failure {
 			return vlib.Failf("middleware first configured with Origins=[%q], then reconfigured (%s) to Origins=%q: GET with Origin %q allowed=%t, the current configuration says %t", k.Origin, k.Via, k.Patterns, k.Origin, got, want || all)
 		}
 	default:
+		if name, value, ok := strings.Cut(strings.TrimPrefix(k.Via, "api-with-header:"), ":"); ok && strings.HasPrefix(k.Via, "api-with-header:") {
+			m, err := cors.NewMiddleware(cors.Config{Origins: k.Patterns})
+			if err != nil {
+				return vlib.Failf("list of valid patterns %q rejected: %v", k.Patterns, err)
+			}
+			all := slices.Contains(k.Patterns, "*")
+			h := m.Wrap(noopHandler)
+			for _, dbg := range []bool{false, true} {
+				m.SetDebug(dbg)
+				for _, base := range []vlib.Req{{Method: "GET", Hdr: map[string][]string{"Origin": {k.Origin}}}, {Method: "OPTIONS", Hdr: map[string][]string{"Origin": {k.Origin}, "Access-Control-Request-Method": {"GET"}}}} {
+					rec := vlib.NewRec()
+					h.ServeHTTP(rec, withDictionaryHeader(base, [2]string{name, value}).HTTP())
+					acao := rec.H["Access-Control-Allow-Origin"]
+					got := len(acao) == 1 && (acao[0] == k.Origin || all && acao[0] == "*") && (base.Method == "GET" || rec.Status/100 == 2)
+					if got != (want || all) {
+						return vlib.Failf("Origins=%q debug=%t: %s with Origin %q and the additional request header %s: %s is answered with status %d ACAO=%q, the configuration allows the origin: %t", k.Patterns, dbg, base.Method, k.Origin, name, value, rec.Status, acao, want || all)
+					}
+				}
+			}
+			return nil
+		}
 		return vlib.Failf("bad case")
 	}
 	return nil
@@ -738,6 +759,38 @@ func checkC01(c *vlib.Ctx) (string, string) {
 		_ = apiReqs
 		c.States.Add(apiLists)
 		famInfo["API-pass"] = map[string]any{"alphabet": len(apiUnion), "max_list_length": maxLen, "lists": apiLists}
+	}
+	// the verdict does not depend on any other request header: three small lists x allowed / near-miss origins x
+	// every entry of the request-header dictionary, actual request and preflight, both debug modes
+	for _, list := range [][]string{{"https://a.b"}, {"https://*.a.b:*", "http://c.d"}, {"*"}} {
+		m, err := cors.NewMiddleware(cors.Config{Origins: list})
+		if err != nil {
+			ck.Report(c01Case{list, "", "api"}, vlib.Failf("list of valid patterns %q rejected: %v", list, err))
+			continue
+		}
+		h := m.Wrap(noopHandler)
+		all := slices.Contains(list, "*")
+		for _, dbg := range []bool{false, true} {
+			m.SetDebug(dbg)
+			for _, o := range []string{"https://a.b", "https://x.a.b:8", "http://c.d", "https://evil.b", "https://xa.b"} {
+				want := all || ref.DenotedByAny(list, o)
+				for _, e := range requestHeaderDictionary {
+					for _, base := range []vlib.Req{{Method: "GET", Hdr: map[string][]string{"Origin": {o}}}, {Method: "OPTIONS", Hdr: map[string][]string{"Origin": {o}, "Access-Control-Request-Method": {"GET"}}}} {
+						rec := vlib.NewRec()
+						h.ServeHTTP(rec, withDictionaryHeader(base, e).HTTP())
+						acao := rec.H["Access-Control-Allow-Origin"]
+						got := len(acao) == 1 && (acao[0] == o || all && acao[0] == "*") && (base.Method == "GET" || rec.Status/100 == 2)
+						c.Evaluations.Add(1)
+						if got != want {
+							ck.C.Violation(c01Case{list, o, "api-with-header:" + e[0] + ":" + e[1]}, vlib.Failf("Origins=%q debug=%t: %s with Origin %q and the additional request header %s: %s is answered with status %d ACAO=%q, the configuration allows the origin: %t", list, dbg, base.Method, o, e[0], e[1], rec.Status, acao, want),
+								func() *vlib.Failure {
+									return vlib.Guard(func() *vlib.Failure { return c01Judge(c01Case{list, o, "api-with-header:" + e[0] + ":" + e[1]}) })
+								}, "")
+						}
+					}
+				}
+			}
+		}
 	}
 	// every port number: as an origin against an any-port pattern and against one discrete port, and as a pattern
 	// that must match itself (and nothing else among its neighbours)
